@@ -17,6 +17,7 @@ from gvsim.sim import Client, Raised, Sim, inject_rng, sut
 PROP = 'C14'
 TIERS = {'quick': {'runs': 4000, 'wall': 110, 'chunk': 25}, 'thorough': {'runs': 100000, 'wall': 1500, 'chunk': 50}}
 CASES_PER_RUN = 10
+REACH = ['scripted_outcomes_replayed', 'plan_len_ge_10']  # probes / faults that must fire in every batch (reach gaps are reported in the evidence)
 RULE = ('one run = 10 instances; an instance = a built-in reset function with valid parameters and a seeded or scripted '
         '(uniform / first / last / mixed) generator, wrapped in the transition chain, termination and action space of the '
         'shipped configuration of its family; a planner client plans on the reference model (random outcomes resolved '
